@@ -11,10 +11,12 @@
                               Skipped when the .so is newer than every input.
   py_ext.py run               stdin: one hex-encoded UTF-8 source per line
                               stdout per line: `ok <hex msgpack bytes>` | `exc <ExceptionType>`
-                              | `badinput`
+                              (a Rust panic is pyo3's PanicException) | `timeout` (no return within
+                              VERIF_PYEXT_TIMEOUT seconds, default 10: the call runs in a child
+                              process that is killed and restarted) | `crash <status>` | `badinput`
   py_ext.py records           like run, but prints `C20\t<hex source>\t<hex bytes>` for returned
-                              results only (input of `sasmodel check`); exceptions are counted on
-                              stderr.
+                              results only (input of `sasmodel check`); exceptions, timeouts and
+                              crashes are counted on stderr.
 
 Nothing is written under /repo.  The sas_lexer Python package is NOT imported (it needs msgspec):
 the .so is loaded directly with importlib under its own module name `_sas_lexer_rust`.
@@ -22,6 +24,7 @@ the .so is loaded directly with importlib under its own module name `_sas_lexer_
 import importlib.machinery
 import importlib.util
 import os
+import select
 import shutil
 import subprocess
 import sys
@@ -124,66 +127,103 @@ def load():
     return mod
 
 
-def lex_lines(stream):
-    """yields (hex source, 'ok'|'exc'|'badinput', hex bytes | exception type name | '')"""
-    mod = load()
-    fn = mod._lex_program_from_str
-    for line in stream:
-        h = line.strip()
-        try:
-            src = bytes.fromhex(h).decode("utf-8")
-        except ValueError:
-            yield h, "badinput", ""
-            continue
-        try:
-            out = fn(src)
-        except BaseException as e:  # pyo3 PanicException derives from BaseException
-            if isinstance(e, (KeyboardInterrupt, SystemExit)):
-                raise
-            yield h, "exc", type(e).__name__
-            continue
-        if not isinstance(out, bytes):
-            yield h, "exc", "NotBytes:" + type(out).__name__
-            continue
-        yield h, "ok", out.hex()
+def lex_one(fn, h):
+    """('ok'|'exc'|'badinput', hex bytes | exception type name | '')"""
+    try:
+        src = bytes.fromhex(h).decode("utf-8")
+    except ValueError:
+        return "badinput", ""
+    try:
+        out = fn(src)
+    except BaseException as e:  # pyo3 PanicException derives from BaseException
+        if isinstance(e, (KeyboardInterrupt, SystemExit)):
+            raise
+        return "exc", type(e).__name__
+    if not isinstance(out, bytes):
+        return "exc", "NotBytes:" + type(out).__name__
+    return "ok", out.hex()
 
 
-def silence_panic_messages():
-    # a Rust panic prints its message to fd 2 before pyo3 turns it into PanicException
+def worker():
+    """one response line per request line; the supervisor kills us when the lexer does not return"""
     if os.environ.get("VERIF_PYEXT_SHOW_PANICS") != "1":
-        devnull = os.open(os.devnull, os.O_WRONLY)
-        keep = os.dup(2)
-        os.dup2(devnull, 2)
-        return keep
-    return None
-
-
-def run():
-    keep = silence_panic_messages()
+        # a Rust panic prints its message to fd 2 before pyo3 turns it into PanicException
+        os.dup2(os.open(os.devnull, os.O_WRONLY), 2)
+    fn = load()._lex_program_from_str
     out = sys.stdout
-    for h, st, payload in lex_lines(sys.stdin):
+    for line in sys.stdin:
+        st, payload = lex_one(fn, line.strip())
         out.write(st + (" " + payload if payload else "") + "\n")
-    out.flush()
-    if keep is not None:
-        os.dup2(keep, 2)
+        out.flush()
     return 0
 
 
-def records():
-    keep = silence_panic_messages()
+def lex_lines(stream, timeout):
+    """yields (hex source, 'ok'|'exc'|'timeout'|'crash'|'badinput', payload).  The extension runs in
+    a child process: the published lexer can fail to return (no GIL release, no signal check), then
+    the child is killed after `timeout` seconds and restarted."""
+    if not os.path.isfile(SO):
+        die(f"{SO} not built (run `py_ext.py build`)")
+
+    def spawn():
+        return subprocess.Popen([sys.executable, os.path.abspath(__file__), "_worker"],
+                                stdin=subprocess.PIPE, stdout=subprocess.PIPE)
+    w = spawn()
+    try:
+        for line in stream:
+            h = line.strip()
+            try:
+                w.stdin.write(h.encode() + b"\n")
+                w.stdin.flush()
+            except BrokenPipeError:
+                pass
+            ready, _, _ = select.select([w.stdout], [], [], timeout)
+            if not ready:
+                w.kill()
+                w.wait()
+                w = spawn()
+                yield h, "timeout", ""
+                continue
+            resp = w.stdout.readline().decode().rstrip("\n")
+            if not resp:  # the process died (abort, segfault)
+                rc = w.wait()
+                w = spawn()
+                yield h, "crash", str(rc)
+                continue
+            st, _, payload = resp.partition(" ")
+            yield h, st, payload
+    finally:
+        try:
+            w.stdin.close()
+        except OSError:
+            pass
+        w.kill()
+        w.wait()
+
+
+def run(timeout):
     out = sys.stdout
-    n = {"ok": 0, "exc": 0, "badinput": 0}
+    for h, st, payload in lex_lines(sys.stdin, timeout):
+        out.write(st + (" " + payload if payload else "") + "\n")
+    out.flush()
+    return 0
+
+
+def records(timeout):
+    out = sys.stdout
+    n = {"ok": 0, "exc": 0, "timeout": 0, "crash": 0, "badinput": 0}
     kinds = {}
-    for h, st, payload in lex_lines(sys.stdin):
+    for h, st, payload in lex_lines(sys.stdin, timeout):
         n[st] += 1
         if st == "ok":
             out.write(f"C20\t{h}\t{payload}\n")
         elif st == "exc":
             kinds[payload] = kinds.get(payload, 0) + 1
+        elif st == "timeout":
+            sys.stderr.write(f"py_ext: no return within {timeout}s: {h}\n")
     out.flush()
-    if keep is not None:
-        os.dup2(keep, 2)
-    sys.stderr.write(f"py_ext: returned {n['ok']} exceptions {n['exc']} {kinds} badinput {n['badinput']}\n")
+    sys.stderr.write(f"py_ext: returned {n['ok']} exceptions {n['exc']} {kinds} timeouts {n['timeout']} "
+                     f"crashes {n['crash']} badinput {n['badinput']}\n")
     return 0
 
 
@@ -191,10 +231,13 @@ def main():
     a = sys.argv[1:]
     if a[:1] == ["build"]:
         return build(force="--force" in a[1:])
+    timeout = float(os.environ.get("VERIF_PYEXT_TIMEOUT", "10"))
     if a == ["run"]:
-        return run()
+        return run(timeout)
     if a == ["records"]:
-        return records()
+        return records(timeout)
+    if a == ["_worker"]:
+        return worker()
     sys.stderr.write(__doc__)
     return 2
 
